@@ -8,9 +8,13 @@
    and the feature sets of the nat/nft/tproxy/pf/ipfw methods.
 
    One generic function `startup_gen fx` is parameterised by which repairs
-   (pending_fixes/F1 F2 F14 F15 F21) are applied:
-     startup          := startup_gen all_fixed     (the REPAIRED code)
-     startup_asfound  := startup_gen no_fixes      (the code as found)
+   (pending_fixes/F1 F2 F14 F15 F21 F131) are applied:
+     startup_full          := startup_gen all_fixed     (the REPAIRED code)
+     startup_asfound_full  := startup_gen no_fixes      (the code as found)
+   over a kernel that answers every bind() with success, EADDRINUSE (`env`) or
+   another errno (`renv`: EADDRNOTAVAIL for an address that is not local, EACCES
+   for a privileged port, EINVAL ...); `startup` / `startup_asfound` are the same
+   over kernels that never refuse (`no_refusal`).
    Python exceptions are values: Fatal (helpers.Fatal, an explanatory message),
    OsError errno (a raw OSError of the socket layer), Crash cls (anything else). *)
 From Coq Require Import List NArith Ascii Bool String.
@@ -79,13 +83,22 @@ Record cfg := {
   c_user : idspec; c_group : idspec }.
 
 (* environment: bind((ip, port)) on a socket of this protocol and family fails
-   with EADDRINUSE.  (Any other bind outcome is outside this model.) *)
+   with EADDRINUSE. *)
 Definition env := proto -> fam -> bytes -> N -> bool.
+(* ... or is refused with another errno (Some errno): EADDRNOTAVAIL for an address
+   that is not one of the machine's, EACCES for a port the process may not use,
+   EINVAL ...  A refusal is decided before the port is looked at, so it takes
+   precedence over `env`. *)
+Definition renv := proto -> fam -> bytes -> N -> option N.
+Definition no_refusal : renv := fun _ _ _ _ => None.
+(* bind() does not succeed *)
+Definition bind_fails (e : env) (rf : renv) : env :=
+  fun pr f ip port => match rf pr f ip port with Some _ => true | None => e pr f ip port end.
 
 (* which pending repairs are applied *)
-Record fixes := { fx_F1 : bool; fx_F2 : bool; fx_F14 : bool; fx_F15 : bool; fx_F21 : bool }.
-Definition all_fixed := {| fx_F1 := true; fx_F2 := true; fx_F14 := true; fx_F15 := true; fx_F21 := true |}.
-Definition no_fixes := {| fx_F1 := false; fx_F2 := false; fx_F14 := false; fx_F15 := false; fx_F21 := false |}.
+Record fixes := { fx_F1 : bool; fx_F2 : bool; fx_F14 : bool; fx_F15 : bool; fx_F21 : bool; fx_F131 : bool }.
+Definition all_fixed := {| fx_F1 := true; fx_F2 := true; fx_F14 := true; fx_F15 := true; fx_F21 := true; fx_F131 := true |}.
+Definition no_fixes := {| fx_F1 := false; fx_F2 := false; fx_F14 := false; fx_F15 := false; fx_F21 := false; fx_F131 := false |}.
 
 Inductive featkey := KUdp | KDns | KIpv6 | KIpv4 | KUser | KGroup.
 Inductive fatal :=
@@ -100,7 +113,10 @@ Inductive fatal :=
   | FV6SubnetsNoListen        (* :1136 *)
   | FV6NsNoListen             (* :1142 *)
   | FV4SubnetsNoListen        (* :1146 *)
-  | FV4NsNoListen.            (* :1150 *)
+  | FV4NsNoListen             (* :1150 *)
+  | FV6Unavailable            (* MultiListener.bind :177-186, IPv6 bind -> EADDRNOTAVAIL ("... Run sshuttle with '--disable-ipv6'") *)
+  | FBindRefused              (* F131 repair, replaces `raise e` at :1111 (TCP/UDP redirector search) *)
+  | FDnsBindRefused.          (* F131 repair, replaces `raise e` at :1157 (DNS listener search) *)
 Inductive pyexn := AssertionError | UnboundLocalError | TypeError.
 
 (* what fw.setup (client.py:1160) and _main (:1166) receive, plus the addresses
@@ -117,6 +133,7 @@ Record plan := {
 Inductive result := Fatal (m : fatal) | OsError (errno : N) | Crash (c : pyexn) | Plan (p : plan).
 
 Definition EADDRINUSE : N := 98.   (* errno.EADDRINUSE (Linux); Props/C15.v checks it against the regenerated Gen/Consts.v *)
+Definition EADDRNOTAVAIL : N := 99. (* errno.EADDRNOTAVAIL (Linux); likewise *)
 
 (* ---------- small helpers ---------- *)
 Definition LOOP4 : bytes := Eval compute in bytes_of_string "127.0.0.1".
@@ -156,6 +173,28 @@ Definition bind_one (e : env) (pr : proto) (f : fam) (a : option addr) : bool :=
 Definition mbind (e : env) (pr : proto) (a6 a4 : option addr) : bool :=
   if bind_one e pr V6 a6 then bind_one e pr V4 a4 else false.
 
+(* MultiListener.bind on a kernel that may refuse: the first bind of the sequence v6, v4
+   that is refused with an errno other than EADDRINUSE — unless an earlier one of the
+   sequence was busy (its EADDRINUSE is raised first and the second is never tried). *)
+Definition refused_at (rf : renv) (pr : proto) (f : fam) (a : option addr) : option (fam * N) :=
+  match a with
+  | Some (ip, port) => match rf pr f ip port with Some n => Some (f, n) | None => None end
+  | None => None
+  end.
+Definition mrefused (e : env) (rf : renv) (pr : proto) (a6 a4 : option addr) : option (fam * N) :=
+  match refused_at rf pr V6 a6 with
+  | Some x => Some x
+  | None => if bind_one e pr V6 a6 then refused_at rf pr V4 a4 else None
+  end.
+
+(* what a refused bind ends in: MultiListener.bind turns EADDRNOTAVAIL on the IPv6 socket into a
+   Fatal of its own (as found, too); everything else reaches the `else: raise e` of the loop,
+   which the F131 repair turns into a Fatal naming the addresses and the OS error *)
+Definition refused_result (fx : fixes) (dns : bool) (f : fam) (errno : N) : result :=
+  if fam_eqb f V6 && (errno =? EADDRNOTAVAIL) then Fatal FV6Unavailable
+  else if fx_F131 fx then Fatal (if dns then FDnsBindRefused else FBindRefused)
+  else OsError errno.
+
 (* client.py:1042-1060 — address and reported port of one family for loop port `port` *)
 Definition pick (l : option addr) (port : N) : option addr * N :=
   match l with
@@ -168,7 +207,7 @@ Inductive tcp_res :=
   | TFail (r : result).
 
 (* client.py:1033-1078.  `used` = None stands for the unbound local used_ports. *)
-Fixpoint tcp_search (fx : fixes) (e : env) (udp : bool) (l6 l4 : option addr)
+Fixpoint tcp_search (fx : fixes) (e : env) (rf : renv) (udp : bool) (l6 l4 : option addr)
          (ports : list N) (used : option (list N)) (last_e : bool) : tcp_res :=
   match ports with
   | [] =>                                         (* `if not bound:` :1076 *)
@@ -177,6 +216,12 @@ Fixpoint tcp_search (fx : fixes) (e : env) (udp : bool) (l6 l4 : option addr)
   | port :: rest =>
       let (lv6, rp6) := pick l6 port in
       let (lv4, rp4) := pick l4 port in
+      match (match mrefused e rf TCP lv6 lv4 with
+             | Some x => Some x
+             | None => if udp && mbind e TCP lv6 lv4 then mrefused e rf UDP lv6 lv4 else None
+             end) with
+      | Some (f, errno) => TFail (refused_result fx false f errno)      (* :1105-1111 *)
+      | None =>
       if mbind e TCP lv6 lv4 && (if udp then mbind e UDP lv6 lv4 else true) then
         match used with
         | None => TFail (Crash UnboundLocalError)   (* used_ports.append(port) :1067 *)
@@ -186,8 +231,9 @@ Fixpoint tcp_search (fx : fixes) (e : env) (udp : bool) (l6 l4 : option addr)
       else
         match used with
         | None => TFail (Crash UnboundLocalError)   (* used_ports.append(port) :1072 *)
-        | Some u => tcp_search fx e udp l6 l4 rest (Some (u ++ [port])) true
+        | Some u => tcp_search fx e rf udp l6 l4 rest (Some (u ++ [port])) true
         end
+      end
   end.
 
 Inductive dns_res :=
@@ -198,7 +244,7 @@ Definition at_port (l : option addr) (port : N) : option addr * N :=
   match l with Some (ip, _) => (Some (ip, port), port) | None => (None, 0) end.
 
 (* client.py:1088-1124.  `cur` = dns_listener has been assigned. *)
-Fixpoint dns_search (fx : fixes) (e : env) (l6 l4 : option addr)
+Fixpoint dns_search (fx : fixes) (e : env) (rf : renv) (l6 l4 : option addr)
          (ports : list N) (used : list N) (cur : bool) (last_e : bool) : dns_res :=
   match ports with
   | [] =>
@@ -207,12 +253,16 @@ Fixpoint dns_search (fx : fixes) (e : env) (l6 l4 : option addr)
                (if last_e then OsError EADDRINUSE else Crash AssertionError)
              else Crash UnboundLocalError)
   | port :: rest =>
-      if memN port used then dns_search fx e l6 l4 rest used cur last_e
+      if memN port used then dns_search fx e rf l6 l4 rest used cur last_e
       else
         let (lv6, dp6) := at_port l6 port in
         let (lv4, dp4) := at_port l4 port in
+        match mrefused e rf UDP lv6 lv4 with
+        | Some (f, errno) => DFail (refused_result fx true f errno)      (* :1151-1157 *)
+        | None =>
         if mbind e UDP lv6 lv4 then DBound dp6 dp4 lv6 lv4
-        else dns_search fx e l6 l4 rest (used ++ [port]) true true
+        else dns_search fx e rf l6 l4 rest (used ++ [port]) true true
+        end
   end.
 
 (* any(listenip[0] == sex[1] for sex in subnets_vX) *)
@@ -237,7 +287,7 @@ Definition idopt (i : idspec) : option N :=
   match i with IdExists n => Some n | _ => None end.
 
 (* ---------- client.main up to the call of _main ---------- *)
-Definition startup_gen (fx : fixes) (c : cfg) (e : env) : result :=
+Definition startup_gen (fx : fixes) (c : cfg) (e : env) (rf : renv) : result :=
   let av := c_feat c in
   if negb (c_remote c) then Fatal FNoRemote else                        (* :822 *)
   let nslist0 := c_ns_hosts c ++ (if c_dns c then c_resolv c else []) in (* :843 *)
@@ -300,10 +350,10 @@ Definition startup_gen (fx : fixes) (c : cfg) (e : env) : result :=
     end in
   let ports := if both_explicit then [0] else search_ports in
   let used0 := if both_explicit then (if fx_F1 fx then Some [] else None) else Some [] in
-  match tcp_search fx e r_udp l6 l4 ports used0 false with
+  match tcp_search fx e rf r_udp l6 l4 ports used0 false with
   | TFail r => r
   | TBound rp6 rp4 tv6 tv4 used last_e =>
-  match (if r_dns then dns_search fx e l6 l4 search_ports used false last_e   (* :1085 *)
+  match (if r_dns then dns_search fx e rf l6 l4 search_ports used false last_e   (* :1085 *)
          else DBound 0 0 None None) with
   | DFail r => r
   | DBound dp6 dp4 dv6 dv4 =>
@@ -323,8 +373,11 @@ Definition startup_gen (fx : fixes) (c : cfg) (e : env) : result :=
           p_dns6 := dv6; p_dns4 := dv4 |}
   end end end end end end.
 
-Definition startup : cfg -> env -> result := startup_gen all_fixed.
-Definition startup_asfound : cfg -> env -> result := startup_gen no_fixes.
+Definition startup_full : cfg -> env -> renv -> result := startup_gen all_fixed.
+Definition startup_asfound_full : cfg -> env -> renv -> result := startup_gen no_fixes.
+(* kernels that never refuse a bind (every failure is EADDRINUSE) *)
+Definition startup (c : cfg) (e : env) : result := startup_full c e no_refusal.
+Definition startup_asfound (c : cfg) (e : env) : result := startup_asfound_full c e no_refusal.
 
 (* ---------- environments given as a finite list of busy port ranges ---------- *)
 (* (protocol, family, lo, hi): every address, ports lo..hi busy *)
@@ -335,6 +388,18 @@ Definition env_of_ranges (rs : list busy_range) : env :=
   fun pr f _ port =>
     existsb (fun r => match r with (pr', f', lo, hi) =>
                         proto_eqb pr pr' && fam_eqb f f' && (lo <=? port) && (port <=? hi) end) rs.
+
+(* refusals given as a finite list: (protocol, family, address or every address, lo, hi, errno);
+   the first matching entry decides *)
+Definition refusal := (proto * fam * option bytes * N * N * N)%type.
+Definition renv_of_list (rs : list refusal) : renv :=
+  fun pr f ip port =>
+    match find (fun r => match r with (pr', f', oip, lo, hi, _) =>
+                  proto_eqb pr pr' && fam_eqb f f' && (lo <=? port) && (port <=? hi) &&
+                  match oip with Some a => bytes_eqb ip a | None => true end end) rs with
+    | Some (_, _, _, _, _, n) => Some n
+    | None => None
+    end.
 
 (* ---------- the specification side: what "consistent" means ---------- *)
 Definition ipv6_active (c : cfg) : bool :=
